@@ -158,11 +158,17 @@ inline Plan make_plan(Rng& g) {
     }
     if (g.chance(1, 6))
         p.store_a0l(MMIO + 0x204, (u16)(1u << g.below(4))); // software trigger from the guest
+    u32 main_loop = p.at;
     for (unsigned k = 0; k < nmain; ++k)
         p.w(INC_A0);
-    if (use_idle)
-        p.w(BRR_M1);
-    else {
+    if (use_idle) {
+        // the idle self-branch, unconditional or under a condition evaluated on the flags left by `inc a0`
+        // (eq is never true here: the program then spins through the br below instead of idling)
+        static const u16 conds[] = {0, 0, 0, 0, 2, 3, 4, 1, 5, 7, 8, 9, 10, 12};
+        p.w((u16)(BRR_M1 | g.pick(conds)));
+        p.w(NOP);
+        p.w2(BR, (u16)main_loop);
+    } else {
         u32 loop = p.at;
         p.w(INC_A0);
         p.w2(BR, (u16)loop);
@@ -171,6 +177,8 @@ inline Plan make_plan(Rng& g) {
     auto handler = [&](u32 at, bool with_ctx, u16 ackbits) {
         p.org(at);
         unsigned body = (unsigned)g.below(16);
+        if (g.chance(1, 5))
+            p.w(EINT); // nested interrupts: a higher or equal line may preempt this handler
         if (body & 1) { // observe timer0 counter: makes interrupt latency visible
             p.w2(MOV_M_A1, MMIO + 0x28);
             p.w(MOV_A1L_R1P);
